@@ -914,6 +914,12 @@ func (m *obsModel) announcementConsistency(e *logEntry, outs []outMsg, before, a
 		if pm == nil || pm.Prefix == nil {
 			continue
 		}
+		if pm.Prefix.User == "" && pm.Prefix.Host == "" {
+			// a server name, not a nickname: the subject is a session that registered a nickname and then
+			// turned itself into a services link (it knows the services password); it keeps its memberships
+			// but is relayed under the server name. Such hybrids are not judged here.
+			continue
+		}
 		switch strings.ToUpper(pm.Command) {
 		case "JOIN":
 			if len(pm.Params) > 0 {
@@ -937,8 +943,16 @@ func (m *obsModel) announcementConsistency(e *logEntry, outs []outMsg, before, a
 		}
 		return ""
 	}
+	isLinkSession := func(id [2]uint64) bool {
+		for _, p := range []*priv{before, after} {
+			if s := p.Sess[id]; s != nil && s.Server {
+				return true
+			}
+		}
+		return false
+	}
 	for k := range ma {
-		if mb[k] {
+		if mb[k] || isLinkSession(k.id) {
 			continue
 		}
 		// gained membership: must have been announced as JOIN of that session's (new) nickname
@@ -947,7 +961,7 @@ func (m *obsModel) announcementConsistency(e *logEntry, outs []outMsg, before, a
 		}
 	}
 	for k := range mb {
-		if ma[k] {
+		if ma[k] || isLinkSession(k.id) {
 			continue
 		}
 		nb := nickOf(before, k.id)
